@@ -1298,3 +1298,7 @@ mod tests {
     assert_eq!(header, new_header);
   }
 }
+
+#[cfg(rustdds_verif)]
+#[path = "/verif/harness/incrate/access/message_receiver.rs"]
+mod verif_access;
